@@ -98,4 +98,20 @@ def renameClasses (style : Str) (cs : List Cls) : List Str :=
       if idxs.length > 1 then renameGroup useNames st idxs else st) ⟨cs, []⟩
   st.cur.map (·.qname)
 
+/-- `VacuumInnerClasses.rename_duplicate_inners`: the names of the inner classes of one class, in
+order; a name whose slug is already taken gets the next free index (`ClassUtils.unique_name`).
+`reserved` = slugs of the inner classes seen so far. -/
+def renameInners : List Str → List Str → List Str
+  | [], _ => []
+  | n :: rest, reserved =>
+    let n' := if reserved.contains (alnum n) then (uniqueName n reserved).getD n else n
+    n' :: renameInners rest (alnum n' :: reserved)
+
+/-- `DisambiguateChoices.create_ref_class`: the qualified name of the class created for an
+ambiguous choice `name` of the class `source` (inner: the next free name among the inner classes);
+it lives in the target namespace of `source` -/
+def refClassQName (sourceQName name : Str) (inner : Bool) (innerNames : List Str) : Option Str :=
+  let ns := (splitQName sourceQName).1
+  if inner then (nextAvailableName name innerNames).map (buildQName ns) else some (buildQName ns name)
+
 end Xs.Rename
